@@ -103,6 +103,13 @@ def task(arg):
     st = tm.var('i:1040.filing_status', 'I')
     members = [m.name for m in rm.cat.input('1040.filing_status').enum]
 
+    def defined(name):
+        try:
+            rm.cat.field(name)
+            return True
+        except Exception:
+            return False
+
     def val0(n):
         if n not in rm.summ or rm.lvar[n][0] != 'num' or rm.lvar[n][2] == 'bool':
             return None
@@ -148,6 +155,23 @@ def task(arg):
             if k == 'carry':
                 return op(expr[1])
             if k == 'carry_form':
+                src = '%s.%s' % (expr[1], expr[2])
+                if src not in rm.summ and defined(src):
+                    # the form defines the source line, yet no return in the closure ever computes it:
+                    # is there a solved return in which the carrying line takes a value from elsewhere?
+                    offending = []
+                    for kk, p in enumerate(rm.summ[L]):
+                        if p.kind == 'value' and (L, kk) in rm.sel and any(kind == 'read_line' for kind, nm_, _ in p.reads):
+                            offending.append(rm.sel[(L, kk)])
+                    if offending:
+                        t1 = time.time()
+                        r_, inputs_, m_ = lf.query([rm.solved, rm.valued[L], tm.or_(*offending)])
+                        nm_ = 'ty%d/%s carries from %s (defined, never computed)' % (year, L, src)
+                        res['obl'].append((nm_, r_, time.time() - t1))
+                        if r_ == 'sat':
+                            res['viol'].append({'key': 'ty%d:%s:carry-source' % (year, L), 'what': 'line %s takes its amount from another line although its instruction "%s" names %s, which the form defines but which is never computed' % (L, text[:90], src),
+                                                'replay': {'kind': 'solve', 'year': year, 'forms': forms_req, 'inputs': inputs_, 'expect': {'kind': 'carry_trace', 'line': L, 'source': src}}})
+                        raise _Skip()
                 if '%s.%s' % (expr[1], expr[2]) not in rm.summ:
                     res['uncovered'].append((L, 'source %s.%s is not implemented' % (expr[1], expr[2])))
                     raise _Skip()
@@ -204,13 +228,24 @@ def run(tier):
         for i in range(n):
             tasks.append((y, K, S, items[i::n], ['1040'], tier == 'thorough'))
     # forms without machine-readable template text: cited transcriptions (oracle/instruction_overrides.json)
+    anchored, cited_only, unanchored = [0], [0], []
     for form, tr in overrides().get('transcriptions', {}).items():
         for y in tr['years']:
             items = []
+            tpl = os.path.join(instrument.REPO, 'habutax', 'forms', 'ty%d' % y, tr['template']) if tr.get('template') else None
+            ptext = pdftemplate.page_text(tpl) if tpl and os.path.exists(tpl) else ''
             for ln, alts in sorted(tr['lines'].items()):
                 for o in alts:
                     if o.get('years') and y not in o['years']:
                         continue
+                    if o.get('anchor'):
+                        if o['anchor'] in ptext:
+                            anchored[0] += 1
+                        else:
+                            unanchored.append('ty%d %s.%s: anchor %r not found in the page text of %s' % (y, form, ln, o['anchor'], tr.get('template')))
+                            continue
+                    else:
+                        cited_only[0] += 1
                     expr = tuple(o['expr'])
                     if expr[0] == 'add':
                         expr = ('add', list(expr[1]))
@@ -224,6 +259,9 @@ def run(tier):
             for i in range(n):
                 tasks.append((y, K, S, items[i::n], tr['requested_forms'], tier == 'thorough'))
     c.extra['coverage_of_instruction_oracle'] = cov
+    c.extra['transcribed_instructions'] = {'anchored_in_bundled_template_text': anchored[0], 'cited_only': cited_only[0], 'anchor_not_found': unanchored}
+    for u in unanchored:
+        c.inconclusive.append('transcription not anchored: ' + u)
     results = common.pmap(task, tasks)
     unc = []
     mp = {}
